@@ -251,6 +251,13 @@ def grid(prop, quick, seed=0):
     for P in range(6):
         for sd in range(120 if quick else 1500):
             jobs.append('P=%d seed=%d min=150 max=400' % (P, sd))
+    # text-argument hazards: a safe string mutator at rate 1 on many medium-sized pickles (a control character or
+    # quote reaching a text opcode derails the decode only for particular replacement bytes)
+    for P in range(6):
+        for sd in range(100 if quick else 1000):
+            jobs.append('P=%d seed=%d min=150 max=400 mut=character rate=1.0' % (P, sd))
+        for sd in range(30 if quick else 300):
+            jobs.append('P=%d seed=%d min=150 max=400 mut=stringlen,character,boundary rate=1.0' % (P, sd))
     if prop == 'C01':
         # very long pickles: more than 256 memo entries (text PUT/GET indices above one byte, LONG_BINPUT)
         for P in range(6):
